@@ -16,9 +16,9 @@ func vWorldOther() *vWorld {
 }
 
 type vCallResult struct {
-	out  []byte
-	err  bool
-	log  []string
+	out []byte
+	err bool
+	log []string
 }
 
 // one public call on a world, with fresh options and no cache
@@ -143,4 +143,61 @@ func vh_C16_metaschemas() {
 	for _, u := range w.loads {
 		vAssert(u != "http://swagger.io/v2/schema.json", "the built-in meta-schema is requested from the loader")
 	}
+}
+
+// the meta-schema accessors hand every caller an object of its own: what a caller does to it is not seen by
+// the next caller, nor by later resolutions of the built-in documents
+func vh_C16_accessors() {
+	vUseRealMetaSchemas()
+	which := vChoose(2, "accessor")
+	get := func() *Schema {
+		if which == 0 {
+			return MustLoadSwagger20Schema()
+		}
+		return MustLoadJSONSchemaDraft04()
+	}
+	a := get()
+	before, _ := json.Marshal(a)
+	// the caller uses its copy as it pleases
+	a.Title = "changed by the caller"
+	a.Description = "changed by the caller"
+	for k := range a.Definitions {
+		delete(a.Definitions, k)
+	}
+	a.Properties = nil
+	b := get()
+	after, _ := json.Marshal(b)
+	vAssert(vJSONBytesEq(before, after), "a meta-schema accessor returns an object a previous caller modified")
+	// and the built-in document the resolver serves is not that object either
+	w := vWorldOther()
+	r := MustCreateRef([]string{"http://swagger.io/v2/schema.json#/definitions/info", "http://json-schema.org/draft-04/schema#/definitions/positiveInteger"}[which])
+	_, err := ResolveRefWithBase(nil, &r, &ExpandOptions{PathLoader: w.loader})
+	vAssert(err == nil, "after a caller modified the object an accessor gave it, the built-in meta-schema no longer resolves")
+}
+
+// the package-level default loader is read when a call needs it, not remembered from an earlier call
+func vh_C16_defaultloader() {
+	saved := PathLoader
+	defer func() { PathLoader = saved }()
+	w1 := vWorldSmallIn(0)
+	w2 := vWorldOther()
+	r := MustCreateRef(vUSub + "#/definitions/C%20d")
+	PathLoader = w1.loader
+	s1, err1 := ResolveRefWithBase(nil, &r, &ExpandOptions{RelativeBase: vURoot})
+	PathLoader = w2.loader
+	w2.loads = nil
+	s2, err2 := ResolveRefWithBase(nil, &r, &ExpandOptions{RelativeBase: vURoot})
+	vAssert(err1 == nil && err2 == nil, "resolution through the package-level default loader fails")
+	if err1 != nil || err2 != nil {
+		return
+	}
+	vAssert(len(w2.loads) > 0, "after spec.PathLoader was replaced, a call still loads through the loader of an earlier call")
+	b1, _ := json.Marshal(s1)
+	b2, _ := json.Marshal(s2)
+	var want interface{}
+	_ = json.Unmarshal([]byte(w2.docs[vUSub]), &want)
+	wd, _ := vPtrEval(want, "/definitions/C d")
+	wb, _ := json.Marshal(wd)
+	_ = b1
+	vAssert(vJSONEq(b2, wb), "after spec.PathLoader was replaced, a call returns the content served by the loader of an earlier call")
 }
